@@ -22,6 +22,20 @@ func RunSeed(batch uint64, scenario string, idx uint64) uint64 {
 	return engine.H(batch, engine.HashBytes(0, []byte(scenario)), idx)
 }
 
+// coldIndices: run indices below this always generate "cold-style" plans (the
+// tier string gets the suffix "/cold"). Every worker process starts with one of
+// them (a batch is split into at most coldIndices shards), so the first run of
+// every cold process is one that exercises first-use behaviour. It is a pure
+// function of the run index, hence independent of the number of workers.
+const coldIndices = 128
+
+func tierFor(tier string, idx uint64) string {
+	if idx < coldIndices {
+		return tier + "/cold"
+	}
+	return tier
+}
+
 // WorkerFailure is a violation found (and minimised) inside a worker.
 type WorkerFailure struct {
 	RunIndex    uint64          `json:"run_index"`
@@ -130,7 +144,7 @@ func cmdWorker(args []string) int {
 		}
 		seed := RunSeed(*batch, *scName, idx)
 		status.SetRun(idx, seed)
-		plan := sc.Generate(seed, *tier)
+		plan := sc.Generate(seed, tierFor(*tier, idx))
 		out, ctx := engine.RunInProcess(sc, plan, st, status, false)
 		if out.Harness != nil {
 			res.Harness = fmt.Sprintf("run %d seed %d: %s", idx, seed, out.Harness.Msg)
@@ -265,7 +279,7 @@ func cmdFingerprints(args []string) int {
 	setAddressSpaceLimit(info.AddressSpaceLimit)
 	for idx := *from; idx < *to; idx++ {
 		seed := RunSeed(*batch, *scName, idx)
-		plan := info.Sc.Generate(seed, *tier)
+		plan := info.Sc.Generate(seed, tierFor(*tier, idx))
 		out, _ := engine.RunInProcess(info.Sc, plan, engine.NewStats(), nil, false)
 		f := "ok"
 		if out.Fail != nil {
